@@ -281,5 +281,19 @@ func (c *Ctx) sourceBoc() {
 			okAll = false
 		}
 	}
+	// the closures capture the variable, not the value: the slot must hold the parameter for good
+	for _, in := range f.Blocks[0].Instrs {
+		al, ok := in.(*ssa.Alloc)
+		if !ok || !al.Heap || al.Comment != "c" {
+			continue
+		}
+		sts := storesTo(al)
+		okOne := len(sts) == 1 && sts[0].Val == ssa.Value(f.Params[1])
+		pos := al.Pos()
+		if len(sts) > 1 {
+			pos = sts[1].Pos()
+		}
+		c.check(okOne, R, "the cell variable captured by the SourceBoc closures is never reassigned", pos, "single store: the parameter", fmt.Sprintf("Transaction.UnmarshalTLB assigns the captured variable c %d times: the lazily evaluated SourceBoc closures see the last value, not the cell the transaction was decoded from", len(sts)))
+	}
 	c.check(okAll && n == 2, R, "SourceBoc serialises the decoded cell after resetting its cursors", f.Pos(), "both lazy closures reset and serialise the captured parameter cell", "Transaction.SourceBoc's closure no longer serialises the cell the transaction was decoded from (after ResetCounters)")
 }
